@@ -189,6 +189,26 @@ func init() {
 					})
 				}
 			}
+			// the type of a service without a getter is only printed inside the constructor of the regular output
+			for _, x := range []string{"chan", "map", "func", "struct", "interface", "type", "*pk.struct", "pk.type", "*chan"} {
+				for ci, mk := range []func(t string) Service{
+					func(t string) Service { return Service{Name: "sut", Type: P(t)} },
+					func(t string) Service { return Service{Name: "sut", Type: P(t), Value: P("pk.Var")} },
+					func(t string) Service { return Service{Name: "sut", Type: P(t), Constructor: P("pk.New")} },
+					func(t string) Service {
+						return Service{Name: "sut", Type: P(t), Constructor: P("pk.New"), Getter: P("GetSut")}
+					},
+				} {
+					x, ci, mk := x, ci, mk
+					id := fmt.Sprintf("keyword-type/%s/creation%d", x, ci)
+					w.Case(id, func(c *C) {
+						cfg := &Cfg{Meta: stdMeta(), Services: []Service{mk(x), {Name: "other", Constructor: P("pk2.New")}}}
+						c17keySuffix = ":keyword-type"
+						defer func() { c17keySuffix = "" }()
+						pair(c, id, []File{{"c.yaml", cfg.YAML()}}, false, nil)
+					})
+				}
+			}
 			// configurations without any service or decorator: what a parameter copies into the generated code (the Go
 			// name of a registered function) is checked in both modes all the same
 			for _, x := range []string{"type", "func", "go", "map", "range", "FnStr", "9x", "Fn Str", ""} {
